@@ -7,6 +7,7 @@ import (
 	"math"
 	"math/rand/v2"
 	"reflect"
+	"strings"
 	"unsafe"
 
 	"github.com/philpearl/avro"
@@ -375,8 +376,8 @@ const c17wSchema = `{"type":"record","name":"w","fields":[{"name":"f","type":"lo
 {"name":"m","type":{"type":"map","values":"long"}},{"name":"p","type":["null","long"]},{"name":"aa","type":{"type":"array","items":{"type":"array","items":"long"}}},
 {"name":"ap","type":{"type":"array","items":["null","long"]}},{"name":"n","type":"long"},{"name":"an","type":{"type":"array","items":"long"}},{"name":"g","type":"long"}]}`
 
-func c17widthPositions(c *core.Ctx, r *rand.Rand) int {
-	s, err := avro.SchemaFromString(c17wSchema)
+func c17widthPositions(c *core.Ctx, r *rand.Rand, wire string) int {
+	s, err := avro.SchemaFromString(strings.ReplaceAll(c17wSchema, `"long"`, `"`+wire+`"`))
 	if err != nil {
 		c.Violate("harness", err.Error(), nil)
 		return 0
@@ -451,7 +452,7 @@ func c17widthPositions(c *core.Ctx, r *rand.Rand) int {
 				rb.ExtractResourceBank().Close()
 				n++
 				in_ := v >= lo && v <= hi
-				width := []string{"int16", "int32"}[w]
+				width := wire + " schema, " + []string{"int16", "int32"}[w]
 				switch {
 				case in_ && (rerr != nil || got != v || g != 7):
 					c.Violate("width", fmt.Sprintf("%s as %s: in-range value %d decoded as %d (guard %d) err=%v", width, names[pos], v, got, g, rerr), map[string]any{"hex": fmt.Sprintf("%x", in)})
@@ -464,6 +465,263 @@ func c17widthPositions(c *core.Ctx, r *rand.Rand) int {
 		}
 	}
 	c.Count("width.position-checks", int64(n))
+	return n
+}
+
+// c17builtWidths: the codecs the *builder* chooses for every (schema integer type, Go integer width) pair,
+// as opposed to the exported codec structs used directly: int and long schemas over int16, int32, int64 and
+// int fields. In-range values decode exactly and re-encode to the shortest form; a wire value outside the
+// destination's width is an error (for int64/int destinations only long-schema values beyond int32 are
+// presented, an int schema cannot legally carry them).
+func c17builtWidths(c *core.Ctx, r *rand.Rand) int {
+	n := 0
+	vals := varintBoundaries()
+	for k := 0; k < 20000; k++ {
+		vals = append(vals, int64(r.Uint64())>>uint(r.IntN(60)))
+	}
+	for v := int64(math.MinInt16) - 300; v <= math.MaxInt16+300; v++ {
+		vals = append(vals, v)
+	}
+	rb, wb := avro.NewReadBuf(nil), avro.NewWriteBuf(nil)
+	type dest struct {
+		name   string
+		v      any
+		lo, hi int64
+		get    func(p unsafe.Pointer) int64
+	}
+	dests := []dest{
+		{"int16", struct {
+			F int16 `json:"f"`
+			G int16 `json:"g"`
+		}{}, math.MinInt16, math.MaxInt16, func(p unsafe.Pointer) int64 { return int64(*(*int16)(p)) }},
+		{"int32", struct {
+			F int32 `json:"f"`
+			G int32 `json:"g"`
+		}{}, math.MinInt32, math.MaxInt32, func(p unsafe.Pointer) int64 { return int64(*(*int32)(p)) }},
+		{"int64", struct {
+			F int64 `json:"f"`
+			G int64 `json:"g"`
+		}{}, math.MinInt64, math.MaxInt64, func(p unsafe.Pointer) int64 { return *(*int64)(p) }},
+		{"int", struct {
+			F int `json:"f"`
+			G int `json:"g"`
+		}{}, math.MinInt64, math.MaxInt64, func(p unsafe.Pointer) int64 { return int64(*(*int)(p)) }},
+	}
+	for _, wire := range []string{"int", "long"} {
+		ls, err := avro.SchemaFromString(fmt.Sprintf(`{"type":"record","name":"bw","fields":[{"name":"f","type":"%s"},{"name":"g","type":"%s"}]}`, wire, wire))
+		if err != nil {
+			c.Violate("harness", err.Error(), nil)
+			return n
+		}
+		for _, d := range dests {
+			codec, err := ls.Codec(d.v)
+			if err != nil {
+				c.Violate("width", fmt.Sprintf("no codec for a %s field under an %s schema: %v", d.name, wire, err), nil)
+				return n
+			}
+			size := reflect.TypeOf(d.v).Size()
+			for _, v := range vals {
+				if wire == "int" && (v < math.MinInt32 || v > math.MaxInt32) && d.hi > math.MaxInt32 {
+					continue // not a legal int datum and it fits the destination: nothing is specified
+				}
+				in := refavro.AppendLong(refavro.AppendLong(nil, v), 7)
+				buf := make([]byte, size)
+				rb.Reset(in)
+				rerr := codec.Read(rb, unsafe.Pointer(&buf[0]))
+				got, g := d.get(unsafe.Pointer(&buf[0])), d.get(unsafe.Pointer(&buf[size/2]))
+				n++
+				inRange := v >= d.lo && v <= d.hi
+				switch {
+				case inRange && (rerr != nil || got != v || g != 7 || rb.Len() != 0):
+					c.Violate("width", fmt.Sprintf("%s schema into %s (built codec): in-range value %d decoded as %d (next field %d, left %d) err=%v", wire, d.name, v, got, g, rb.Len(), rerr), map[string]any{"hex": fmt.Sprintf("%x", in)})
+					return n
+				case !inRange && rerr == nil:
+					c.Violate("width", fmt.Sprintf("%s schema into %s (built codec): out-of-range value %d accepted and stored as %d", wire, d.name, v, got), map[string]any{"hex": fmt.Sprintf("%x", in)})
+					return n
+				}
+				if inRange {
+					wb.Reset()
+					codec.Write(wb, unsafe.Pointer(&buf[0]))
+					if !bytes.Equal(wb.Bytes(), in) {
+						c.Violate("int-encoding", fmt.Sprintf("%s schema, %s field (built codec): %d,7 written as %x, specification says %x", wire, d.name, v, wb.Bytes(), in), nil)
+						return n
+					}
+				}
+			}
+		}
+	}
+	c.Count("width.built-codec-checks", int64(n))
+	return n
+}
+
+type c17fp struct {
+	S  []float32          `json:"s"`
+	M  map[string]float32 `json:"m"`
+	P  *float32           `json:"p"`
+	SS [][]float32        `json:"ss"`
+	SP []*float32         `json:"sp"`
+	N  struct {
+		X float32 `json:"x"`
+		Y float64 `json:"y"`
+	} `json:"n"`
+	D  []float64 `json:"d"`
+	PD *float64  `json:"pd"`
+	G  float32   `json:"g"`
+}
+
+// c17floatPositions: float32 values in every position (slice item, map value, pointee, nested slice item, item of
+// a slice of pointers, field of a nested record) carried as double and as float: canonical IEEE-754 little-endian
+// bytes decode bit-exactly in every position, and what the library writes for the decoded value is, to the
+// reference decoder, the same numbers.
+func c17floatPositions(c *core.Ctx, r *rand.Rand) int {
+	n := 0
+	rb, wb := avro.NewReadBuf(nil), avro.NewWriteBuf(nil)
+	for _, wire := range []string{"double", "float"} {
+		text := fmt.Sprintf(`{"type":"record","name":"fp","fields":[{"name":"s","type":{"type":"array","items":"%[1]s"}},{"name":"m","type":{"type":"map","values":"%[1]s"}},
+{"name":"p","type":["null","%[1]s"]},{"name":"ss","type":{"type":"array","items":{"type":"array","items":"%[1]s"}}},{"name":"sp","type":{"type":"array","items":["null","%[1]s"]}},
+{"name":"n","type":{"type":"record","name":"nn","fields":[{"name":"x","type":"%[1]s"},{"name":"y","type":"double"}]}},{"name":"d","type":{"type":"array","items":"double"}},{"name":"pd","type":["null","double"]},{"name":"g","type":"%[1]s"}]}`, wire)
+		ls, err := avro.SchemaFromString(text)
+		var codec avro.Codec
+		if err == nil {
+			codec, err = ls.Codec(c17fp{})
+		}
+		rs, rerr := refavro.ParseSchema([]byte(text))
+		if err != nil || rerr != nil {
+			c.Violate("float-record", fmt.Sprintf("float positions under %s: %v %v", wire, err, rerr), nil)
+			return n
+		}
+		L := func(b []byte, v int64) []byte { return refavro.AppendLong(b, v) }
+		for rep := 0; rep < 1500; rep++ {
+			cnt := []int{1, 2, 3, 7, 8, 9, 16, 33, 100}[r.IntN(9)]
+			xs := make([]float32, 4*cnt+4)
+			for k := range xs {
+				xs[k] = math.Float32frombits(r.Uint32())
+				if r.IntN(3) == 0 {
+					xs[k] = float32(r.NormFloat64())
+				}
+			}
+			ds := make([]float64, cnt+2)
+			for k := range ds {
+				ds[k] = math.Float64frombits(r.Uint64())
+			}
+			F := func(b []byte, x float32) []byte {
+				if wire == "float" {
+					return binary.LittleEndian.AppendUint32(b, math.Float32bits(x))
+				}
+				return binary.LittleEndian.AppendUint64(b, math.Float64bits(float64(x)))
+			}
+			D := func(b []byte, x float64) []byte { return binary.LittleEndian.AppendUint64(b, math.Float64bits(x)) }
+			var in []byte
+			k := 0
+			in = L(in, int64(cnt)) // s
+			for j := 0; j < cnt; j++ {
+				in = F(in, xs[k])
+				k++
+			}
+			in = L(in, 0)
+			in = L(in, 1) // m
+			in = append(L(in, 1), 'k')
+			in = F(in, xs[k])
+			k++
+			in = L(in, 0)
+			in = F(L(in, 1), xs[k]) // p
+			k++
+			in = L(L(in, 1), int64(cnt)) // ss
+			for j := 0; j < cnt; j++ {
+				in = F(in, xs[k])
+				k++
+			}
+			in = L(L(in, 0), 0)
+			in = L(in, int64(cnt)) // sp
+			for j := 0; j < cnt; j++ {
+				in = F(L(in, 1), xs[k])
+				k++
+			}
+			in = L(in, 0)
+			in = D(F(in, xs[k]), ds[0]) // n
+			k++
+			in = L(in, int64(cnt)) // d
+			for j := 0; j < cnt; j++ {
+				in = D(in, ds[1+j])
+			}
+			in = L(in, 0)
+			in = D(L(in, 1), ds[cnt+1]) // pd
+			in = F(in, xs[k])           // g
+			var v c17fp
+			rb.Reset(in)
+			err := codec.Read(rb, unsafe.Pointer(&v))
+			n++
+			if err != nil || rb.Len() != 0 {
+				c.Violate("float-record", fmt.Sprintf("float positions under %s: reading %d-item collections failed: %v (left %d)", wire, cnt, err, rb.Len()), map[string]any{"hex": fmt.Sprintf("%x", in)})
+				return n
+			}
+			// expected bits: under double, a float32 field receives float32(float64(x)) == x bit-exactly except that a
+			// signalling NaN may have been quieted by the widening that produced the wire value
+			same := func(got, want float32) bool {
+				return math.Float32bits(got) == math.Float32bits(want) || (wire == "double" && want != want && got != got)
+			}
+			bad := ""
+			chk := func(where string, got, want float32) {
+				if bad == "" && !same(got, want) {
+					bad = fmt.Sprintf("%s: %08x != %08x", where, math.Float32bits(got), math.Float32bits(want))
+				}
+			}
+			k = 0
+			if len(v.S) != cnt || len(v.M) != 1 || v.P == nil || len(v.SS) != 1 || len(v.SS[0]) != cnt || len(v.SP) != cnt || len(v.D) != cnt || v.PD == nil {
+				bad = fmt.Sprintf("shape: %d %d %v %d %d %d", len(v.S), len(v.M), v.P != nil, len(v.SS), len(v.SP), len(v.D))
+			} else {
+				for j := 0; j < cnt; j++ {
+					chk(fmt.Sprintf("slice item %d of %d", j, cnt), v.S[j], xs[k])
+					k++
+				}
+				chk("map value", v.M["k"], xs[k])
+				k++
+				chk("pointee", *v.P, xs[k])
+				k++
+				for j := 0; j < cnt; j++ {
+					chk(fmt.Sprintf("nested slice item %d of %d", j, cnt), v.SS[0][j], xs[k])
+					k++
+				}
+				for j := 0; j < cnt; j++ {
+					if v.SP[j] == nil {
+						bad = "nil pointer item"
+						break
+					}
+					chk(fmt.Sprintf("pointer item %d of %d", j, cnt), *v.SP[j], xs[k])
+					k++
+				}
+				chk("nested record field", v.N.X, xs[k])
+				k++
+				chk("last field", v.G, xs[k])
+				if bad == "" && math.Float64bits(v.N.Y) != math.Float64bits(ds[0]) {
+					bad = "float64 next to a float32 in a nested record"
+				}
+				for j := 0; j < cnt && bad == ""; j++ {
+					if math.Float64bits(v.D[j]) != math.Float64bits(ds[1+j]) {
+						bad = fmt.Sprintf("float64 slice item %d of %d", j, cnt)
+					}
+				}
+				if bad == "" && math.Float64bits(*v.PD) != math.Float64bits(ds[cnt+1]) {
+					bad = "float64 pointee"
+				}
+			}
+			if bad != "" {
+				c.Violate("float-record", fmt.Sprintf("float32 carried as %s, %s", wire, bad), map[string]any{"hex": fmt.Sprintf("%x", in)})
+				return n
+			}
+			// write the decoded value; the reference decoder must find the same numbers as in the canonical bytes
+			wb.Reset()
+			codec.Write(wb, unsafe.Pointer(&v))
+			wantD, e1 := refavro.DecodeAll(rs, in, 1)
+			gotD, e2 := refavro.DecodeAll(rs, wb.Bytes(), 1)
+			if e1 != nil || e2 != nil || refavro.Render(wantD[0]) != refavro.Render(gotD[0]) {
+				c.Violate("float-record", fmt.Sprintf("float positions under %s: the value decoded from %d-item collections is written as different data (%v %v)", wire, cnt, e1, e2), map[string]any{"hex": fmt.Sprintf("%x", in), "written": fmt.Sprintf("%x", wb.Bytes())})
+				return n
+			}
+			rb.ExtractResourceBank().Close()
+		}
+	}
+	c.Count("float-position.checks", int64(n))
 	return n
 }
 
@@ -756,6 +1014,7 @@ func runC17(c *core.Ctx, i int) {
 		c.Shape("varint-in-context")
 	case "float-records":
 		n = int64(c17floatRecords(c, r))
+		n += int64(c17floatPositions(c, r))
 		c.Count("float-record.checks", n)
 		c.Shape("float-records")
 	case "bool":
@@ -795,7 +1054,9 @@ func runC17(c *core.Ctx, i int) {
 			c17checkWidth[int16](c, avro.Int16Codec{}, v, math.MinInt16, math.MaxInt16, "Int16Codec")
 			n += 2
 		}
-		n += int64(c17widthPositions(c, r))
+		n += int64(c17widthPositions(c, r, "long"))
+		n += int64(c17widthPositions(c, r, "int"))
+		n += int64(c17builtWidths(c, r))
 		c.Count("width.checks", n)
 		c.Shape("width")
 	}
